@@ -131,6 +131,18 @@ func (cs *State) catchupReplay(csHeight int64) error {
 	} else if err != nil {
 		return err
 	}
+	if !found && endHeight > 0 && cs.state.LastBlockHeight == endHeight {
+		// Block endHeight is stored and applied, but its end-of-height marker
+		// never reached the WAL: we crashed between saving the block and writing
+		// the marker, and the handshake applied the block.  Nothing of csHeight
+		// has been written yet.  Write the marker now, otherwise whatever we
+		// write for csHeight from here on could never be replayed after the next
+		// crash (while the signer would refuse to sign those steps again).
+		if err := cs.wal.WriteSync(EndHeightMessage{endHeight}); err != nil {
+			return fmt.Errorf("cannot write missing #ENDHEIGHT for %d: %w", endHeight, err)
+		}
+		return nil
+	}
 	if !found {
 		return fmt.Errorf("cannot replay height %d. WAL does not contain #ENDHEIGHT for %d", csHeight, endHeight)
 	}
